@@ -28,7 +28,7 @@ CHECKS.update({
             technique="stateless exploration of simulation trajectories with a truth oracle after every event, plus explicit-state BFS over cluster operation histories"),
 })
 CHECKS.update({
- "C10": _e1("The explorer owns set-iteration order through Task.__hash__: every permutation (<=120) of the hash order of a case's tasks is executed and all boundary trajectories, task tables and call logs must coincide; first/last permutation and a back-to-back repeat also in FULL mode (tables, event log); the seam is bound to the interpreter by separate-process runs under 8/64 real PYTHONHASHSEED values that must reproduce the enumerated output; the output of a case run right after other simulations of the same process (complete on other machine speeds, abandoned) must equal its output alone.",
+ "C10": _e1("The explorer owns set-iteration order through Task.__hash__: every permutation (<=120) of the hash order of a case's tasks is executed and all boundary trajectories, task tables and call logs must coincide; first/last permutation and a back-to-back repeat also in FULL mode (tables, event log); the seam is bound to the interpreter by separate-process runs under 8/64 real PYTHONHASHSEED values that must reproduce the enumerated output; the output of a case run right after other simulations of the same process (complete on other machine speeds, abandoned) must equal its output alone (complete run on other machine speeds, abandoned run, edited workflow files under the same names, batch run with other partitioning).",
             technique="exhaustive enumeration of set-iteration orders (hash permutations) on the real simulation, conformance-checked against separate interpreter processes with real hash seeds"),
  "C11": _e1("For every pause point k and every bounded split of the remainder, start(k);resume(..) is executed on the real Simulation with the real Monitor and compared (trajectory, per-timestep table, task table, event log) with one uninterrupted run; double start / early resume must raise and change nothing.",
             technique="exhaustive enumeration of pause/resume histories on the real simulation against an uninterrupted reference run"),
